@@ -223,6 +223,16 @@ def run(ctx):
         f = ctx.prog.func(mod, q, "C03-API")
         kc = [c for c in A.calls_in(f) if A.last_attr(c) == "batch_get_posterior_samples"]
         ctx.check("C03-API", f, "%s hands n_linear_samples and rng to the kernel" % q, len(kc) == 1 and [canon(a) for a in kc[0].args[1:3]] == ["n_linear_samples", "rng"], "kernel call: %s" % (A.unparse(kc[0])[:80] if kc else None), key=q + ":kernel")
+    from .C07 import check_meanstd
+    ctx.rule("C03-PRIORS", "prior means / standard deviations reach the kernel converted to the table unit of their parameter, as floats of the declared value (shared with C07-MEANSTD); "
+                           "the data inverse variances are those of the stored errors (shared with C15-IVAR).")
+    check_meanstd(_Relabel(ctx, {"C07-MEANSTD": "C03-PRIORS"}))
+    from .C15 import check_ivar
+    check_ivar(_Relabel(ctx, {"C15-IVAR": "C03-PRIORS"}))
+    from .C05 import check_fresh
+    ctx.rule("C03-STATE", "nothing on the sampler path keeps or changes state between calls (no memoisation, no module-level mutation, no caching on caller-owned objects) "
+                          "(shared with C05-FRESH).")
+    check_fresh(_Relabel(ctx, {"C05-FRESH": "C03-STATE"}))
     # the conditional posterior is the posterior of THE design matrix: columns and reference epoch (shared clauses)
     from .C08 import check_col
     ctx.rule("C03-DESIGN", "the linear block is [Kepler | 1, offset indicators | (t - t_ref)^1, ..] in the order the kernel attaches the priors of (K, v0, offsets, v1, ..) to "
